@@ -51,11 +51,12 @@ class Cell:
 
 
 class Event:
-    __slots__ = ("kind", "node", "data", "func", "depth", "seq", "_fp")
+    __slots__ = ("kind", "node", "data", "func", "depth", "seq", "_fp", "loop")
 
     def __init__(self, kind, node, data, func, depth, seq=0):
         self.kind, self.node, self.data, self.func, self.depth, self.seq = kind, node, data, func, depth, seq
         self._fp = None
+        self.loop = None      # (function, while-node) of the innermost loop whose *test* was being evaluated (also inside callees)
 
     def __repr__(self):
         return "<%s %s @%s:%s>" % (self.kind, self.data, self.func.qualname if self.func else "?", getattr(self.node, "lineno", "?"))
@@ -157,6 +158,9 @@ class InterpBase:
     def event(self, st, fr, kind, node, data=None):
         self.seq += 1
         ev = Event(kind, node, data, fr.func if fr else None, fr.depth if fr else 0, self.seq)
+        lt = getattr(self, "loop_tests", None)
+        if lt:
+            ev.loop = lt[-1]
         st.trace.append(ev)
         if kind in self.collect:
             # kept even if the path that produced it is later merged with an equivalent one
